@@ -149,10 +149,18 @@ Definition t_add_edge_label (t : tables) (l : elabel) : tables * result :=
   end.
 
 (** * InterpretationMixin *)
+(** [name in self._edge_labels and self._edge_labels[name] != label] *)
+Definition label_conflict (t : tables) (l : elabel) : bool :=
+  match aget Nat.eq_dec (t_el t) (el_name l) with
+  | Some l' => if elabel_eq_dec l' l then false else true
+  | None => false
+  end.
+
+(** [add_domain]: "already mapped" test first, then the label is registered and the domain bound *)
 Definition t_add_domain (t : tables) (l : nat) (d : dom) : tables * result :=
-  let t := t_add_node_label t l in
   if amem Nat.eq_dec (t_dom t) l then (t, RErr ValueErr)
-  else (set_dom t (aset Nat.eq_dec (t_dom t) l d), ROk).
+  else let t := t_add_node_label t l in
+       (set_dom t (aset Nat.eq_dec (t_dom t) l d), ROk).
 
 (** the loop [for nl, dom in zip(el.node_labels, fac.domains)] *)
 Fixpoint fac_doms_ok (t : tables) (ty : list nat) (ds : list dom) : bool :=
@@ -165,17 +173,17 @@ Fixpoint fac_doms_ok (t : tables) (ty : list nat) (ds : list dom) : bool :=
   | _, _ => true
   end.
 
-(** [add_factor]: nonterminal test, label registered, "already mapped" test (by name, since
-    the fix of F14 in /repo commit 19d007a), arity test, domain tests, binding *)
+(** [add_factor]: nonterminal test, label-clash test, "already mapped" test (by name), arity
+    test, domain tests; only then is the label registered and the factor bound *)
 Definition t_add_factor (t : tables) (l : elabel) (f : factor) : tables * result :=
   if negb (el_term l) then (t, RErr ValueErr)
+  else if label_conflict t l then (t, RErr ValueErr)
+  else if amem Nat.eq_dec (t_fac t) (el_name l) then (t, RErr ValueErr)
+  else if negb (Nat.eqb (length (f_doms f)) (length (el_ty l))) then (t, RErr ValueErr)
+  else if negb (fac_doms_ok t (el_ty l) (f_doms f)) then (t, RErr ValueErr)
   else match t_add_edge_label t l with
-       | (t, RErr k) => (t, RErr k)
-       | (t, _) =>
-         if amem Nat.eq_dec (t_fac t) (el_name l) then (t, RErr ValueErr)
-         else if negb (Nat.eqb (length (f_doms f)) (length (el_ty l))) then (t, RErr ValueErr)
-         else if negb (fac_doms_ok t (el_ty l) (f_doms f)) then (t, RErr ValueErr)
-         else (set_fac t (aset Nat.eq_dec (t_fac t) (el_name l) f), ROk)
+       | (t', RErr k) => (t', RErr k)          (* cannot happen: no clash *)
+       | (t', _) => (set_fac t' (aset Nat.eq_dec (t_fac t') (el_name l) f), ROk)
        end.
 
 (** [doms = [self.domains[nl.name] for nl in el.node_labels]] *)
@@ -207,30 +215,61 @@ Definition g_add_node (g : graph) (n : node) : graph * result :=
   else let g := gset_tab g (t_add_node_label (g_tab g) (n_label n)) in
        (gset_nodes g (aset ident_eq_dec (g_nodes g) (n_id n) n), ROk).
 
-(** [for node in nodes: if node.id not in self._nodes: self.add_node(node)] *)
-Definition g_add_missing (g : graph) (ns : list node) : graph :=
-  fold_left (fun g n => if amem ident_eq_dec (g_nodes g) (n_id n) then g else fst (g_add_node g n)) ns g.
+(** [old = self._nodes.get(node.id, new.get(node.id))] *)
+Definition lookup2 (m new : list (ident * node)) (k : ident) : option node :=
+  match aget ident_eq_dec m k with Some x => Some x | None => aget ident_eq_dec new k end.
 
+(** [_check_new_nodes]: the nodes to be added, in order; [None] = ValueError because an id
+    is already used (in the graph or earlier in the argument) by a different node *)
+Fixpoint check_new (m new : list (ident * node)) (ns : list node) : option (list node) :=
+  match ns with
+  | [] => Some (map snd new)
+  | n :: ns =>
+    match lookup2 m new (n_id n) with
+    | None => check_new m (aset ident_eq_dec new (n_id n) n) ns
+    | Some old => if node_eq_dec old n then check_new m new ns else None
+    end
+  end.
+
+(** [for node in ...: self.add_node(node)] ([add_node] cannot raise here: the ids are new) *)
+Definition g_add_all (g : graph) (add : list node) : graph :=
+  fold_left (fun g n => fst (g_add_node g n)) add g.
+
+(** the [ext] setter *)
 Definition g_set_ext (g : graph) (ns : list node) : graph * result :=
-  (gset_ext (g_add_missing g ns) ns, ROk).
+  match check_new (g_nodes g) [] ns with
+  | None => (g, RErr ValueErr)
+  | Some add => (gset_ext (g_add_all g add) ns, ROk)
+  end.
 
+(** [remove_node]: [self._nodes.get(node.id) != node] raises *)
 Definition g_remove_node (g : graph) (n : node) : graph * result :=
-  if negb (amem ident_eq_dec (g_nodes g) (n_id n)) then (g, RErr ValueErr)
-  else if existsb (fun ke => inb node_eq_dec n (e_nodes (snd ke))) (g_edges g) then (g, RErr ValueErr)
-  else if inb node_eq_dec n (g_ext g) then (g, RErr ValueErr)
-  else (gset_nodes g (adel ident_eq_dec (g_nodes g) (n_id n)), ROk).
+  match aget ident_eq_dec (g_nodes g) (n_id n) with
+  | None => (g, RErr ValueErr)
+  | Some n' =>
+    if node_eq_dec n' n then
+      if existsb (fun ke => inb node_eq_dec n (e_nodes (snd ke))) (g_edges g) then (g, RErr ValueErr)
+      else if inb node_eq_dec n (g_ext g) then (g, RErr ValueErr)
+      else (gset_nodes g (adel ident_eq_dec (g_nodes g) (n_id n)), ROk)
+    else (g, RErr ValueErr)
+  end.
 
-(** [add_edge]; note the order: duplicate-id test, nodes added, THEN [add_edge_label] may
-    raise (F12), then the edge is stored *)
+(** [add_edge]: duplicate-id test, label-clash test, node-identity test, and only then the
+    mutations: missing nodes, label, edge *)
 Definition g_add_edge (g : graph) (e : edge) : graph * result :=
   if amem ident_eq_dec (g_edges g) (e_id e) then (g, RErr ValueErr)
-  else let g := g_add_missing g (e_nodes e) in
-       match t_add_edge_label (g_tab g) (e_label e) with
-       | (_, RErr k) => (g, RErr k)
-       | (t, _) =>
-         let g := gset_tab g t in
-         let g := gset_edges g (aset ident_eq_dec (g_edges g) (e_id e) e) in
-         (gset_tab g (set_el (g_tab g) (aset Nat.eq_dec (t_el (g_tab g)) (el_name (e_label e)) (e_label e))), ROk)
+  else if label_conflict (g_tab g) (e_label e) then (g, RErr ValueErr)
+  else match check_new (g_nodes g) [] (e_nodes e) with
+       | None => (g, RErr ValueErr)
+       | Some add =>
+         let g := g_add_all g add in
+         match t_add_edge_label (g_tab g) (e_label e) with
+         | (_, RErr k) => (g, RErr k)           (* cannot happen: no clash *)
+         | (t, _) =>
+           let g := gset_tab g t in
+           let g := gset_edges g (aset ident_eq_dec (g_edges g) (e_id e) e) in
+           (gset_tab g (set_el (g_tab g) (aset Nat.eq_dec (t_el (g_tab g)) (el_name (e_label e)) (e_label e))), ROk)
+         end
        end.
 
 Definition g_remove_edge (g : graph) (e : edge) : graph * result :=
@@ -249,9 +288,9 @@ Fixpoint fold_err {A B} (f : A -> B -> A * result) (l : list B) (a : A) : A * re
               end
   end.
 
-(** [Graph.copy] (label tables NOT copied, F13) and [FactorGraph.copy] (re-adds nodes and
-    edges to a fresh FactorGraph, so the label tables are rebuilt from them; domains and
-    factors deep-copied).  [inr k]: the copy raised. *)
+(** [Graph.copy] (containers and both label tables copied) and [FactorGraph.copy] (re-adds
+    nodes and edges to a fresh FactorGraph, then overwrites its label tables with copies of the
+    original's; domains and factors deep-copied).  [inr k]: the copy raised. *)
 Definition g_copy (g : graph) : graph + kind :=
   if g_fg g then
     match fold_err g_add_node (map snd (g_nodes g)) (empty_graph true) with
@@ -261,10 +300,10 @@ Definition g_copy (g : graph) : graph + kind :=
       | (_, RErr k) => inr k
       | (c, _) =>
         let c := gset_ext c (g_ext g) in
-        inl (gset_tab c (set_fac (set_dom (g_tab c) (t_dom (g_tab g))) (t_fac (g_tab g))))
+        inl (gset_tab c (mkT (t_nl (g_tab g)) (t_el (g_tab g)) (t_dom (g_tab g)) (t_fac (g_tab g))))
       end
     end
-  else inl (mkG false (g_nodes g) (g_edges g) (g_ext g) empty_tab).
+  else inl (mkG false (g_nodes g) (g_edges g) (g_ext g) (mkT (t_nl (g_tab g)) (t_el (g_tab g)) [] [])).
 
 (** [Graph.__eq__] *)
 Definition node_eqb (a b : node) : bool := if node_eq_dec a b then true else false.
@@ -314,9 +353,23 @@ Definition h_new (fgg : bool) (s : sspec) : option hrg * result :=
   | (_, r) => (None, r)
   end.
 
-(** [add_rule]: registers lhs label, node labels, edge labels (may raise half-way), then
+(** [seen = dict(self._edge_labels); for el in ...: if seen.setdefault(el.name, el) != el: raise] *)
+Fixpoint labels_clash (seen : list (nat * elabel)) (ls : list elabel) : bool :=
+  match ls with
+  | [] => false
+  | l :: ls =>
+    match aget Nat.eq_dec seen (el_name l) with
+    | Some l' => if elabel_eq_dec l' l then labels_clash seen ls else true
+    | None => labels_clash (aset Nat.eq_dec seen (el_name l) l) ls
+    end
+  end.
+
+(** [add_rule]: clash test over the lhs label and the rhs edge labels first; then registers lhs
+    label, node labels, edge labels (which can no longer raise), then
     [self._rules.setdefault(lhs, []).append(rule)] *)
 Definition h_add_rule (h : hrg) (r : rule) (rhs : graph) : hrg * result :=
+  if labels_clash (t_el (h_tab h)) (r_lhs r :: map (fun ke => e_label (snd ke)) (g_edges rhs))
+  then (h, RErr ValueErr) else
   match t_add_edge_label (h_tab h) (r_lhs r) with
   | (_, RErr k) => (h, RErr k)
   | (t, _) =>
@@ -647,21 +700,8 @@ Definition wf_obs (all : list oobs) (o : oobs) : bool :=
 
 Definition wf_b (all : list oobs) : bool := forallb (wf_obs all) all.
 
-(** * Guards: the calls for which the code as it stands breaks the property *)
+(** * Guard: the one class of calls for which the code as it stands breaks the property *)
 Definition resolved (s : state) (a : list narg) : list node := fst (resolve (ctr s) a).
-
-(** F11: processed left to right, an argument node whose id is already present (in the graph
-    or among the earlier arguments) must BE the node present *)
-Fixpoint nodes_consistent (m : list (ident * node)) (ns : list node) : bool :=
-  match ns with
-  | [] => true
-  | n :: ns =>
-    match aget ident_eq_dec m (n_id n) with
-    | Some n' => node_eqb n' n && nodes_consistent m ns
-    | None => nodes_consistent (aset ident_eq_dec m (n_id n) n) ns
-    end
-  end.
-
 Definition is_ok (r : result) : bool := match r with ROk => true | _ => false end.
 
 (** the label and nodes of the edge an AddEdge / NewEdge call is about *)
@@ -672,32 +712,15 @@ Definition edge_call (s : state) (o : op) : option (nat * elabel * list node) :=
   | _ => None
   end.
 
-Definition f11_ok (s : state) (o : op) : bool :=
-  match o with
-  | SetExt h a =>
-    match get_graph (objs s) h with
-    | Some g => nodes_consistent (g_nodes g) (resolved s a)
-    | None => true
-    end
-  | _ =>
-    match edge_call s o with
-    | Some (h, _, ns) =>
-      match get_graph (objs s) h with
-      | Some g => negb (is_ok (snd (step s o))) || nodes_consistent (g_nodes g) ns
-      | None => true
-      end
-    | None => true
-    end
-  end.
-
-(** aliasing: the grammar keeps a reference to the caller's rhs graph.  A call that changes
-    the type of a graph used as a rhs, or gives it an edge whose label the owning grammar has
-    not registered, breaks the grammar. *)
+(** aliasing: the grammar keeps a reference to the caller's rhs graph.  A successful call that
+    changes the type of a graph used as a rhs, or gives it an edge whose label the owning
+    grammar has not registered, breaks the grammar. *)
 Definition rules_of (o : obj) : list rule :=
   match o with OH h => concat (map snd (h_rules h)) | OG _ => [] end.
 Definition alias_ok (s : state) (o : op) : bool :=
   match o with
   | SetExt h a =>
+    negb (is_ok (snd (step s o))) ||
     forallb (fun x => forallb (fun r => negb (Nat.eqb (r_rhs r) h) ||
                                         (if lnat_eq_dec (el_ty (r_lhs r)) (map n_label (resolved s a)) then true else false))
                               (rules_of x)) (objs s)
@@ -714,109 +737,7 @@ Definition alias_ok (s : state) (o : op) : bool :=
     end
   end.
 
-(** F13: [Graph.copy] forgets the label tables; with an edge present the copy no longer
-    knows the label of its own edge *)
-Definition plain_copy_ok (g : graph) : bool :=
-  g_fg g || match g_edges g with [] => true | _ => false end.
-Definition copy_ok (s : state) (o : op) : bool :=
-  match o with
-  | Copy h =>
-    match nth_error (objs s) h with
-    | Some (OG g) => plain_copy_ok g
-    | Some (OH x) =>
-      negb (is_ok (snd (step s o))) ||
-      forallb (fun r => match get_graph (objs s) (r_rhs r) with Some g => plain_copy_ok g | None => true end)
-              (rules_of (OH x))
-    | None => true
-    end
-  | _ => true
-  end.
-
-(** remove_node tests presence by id but attachment by value: called with a node that shares
-    its id with a different node of the graph, it removes THAT node, attached or not *)
-Definition remove_ok (s : state) (o : op) : bool :=
-  match o with
-  | RemoveNode h n =>
-    match get_graph (objs s) h with
-    | Some g =>
-      match aget ident_eq_dec (g_nodes g) (n_id n) with
-      | Some n' => node_eqb n' n ||
-                   (negb (existsb (fun ke => inb node_eq_dec n' (e_nodes (snd ke))) (g_edges g))
-                    && negb (inb node_eq_dec n' (g_ext g)))
-      | None => true
-      end
-    | None => true
-    end
-  | _ => true
-  end.
-
-Definition guard_wf (s : state) (o : op) : bool := f11_ok s o && remove_ok s o && alias_ok s o && copy_ok s o.
-
-(** atomicity guards.  F12: a failing add_edge/new_edge (label clash) has already added the
-    attachment nodes that were missing *)
-Definition label_conflict (t : tables) (l : elabel) : bool :=
-  match aget Nat.eq_dec (t_el t) (el_name l) with
-  | Some l' => negb (elabel_eqb l' l)
-  | None => false
-  end.
-Definition f12_ok (s : state) (o : op) : bool :=
-  match edge_call s o with
-  | Some (h, l, ns) =>
-    match get_graph (objs s) h with
-    | Some g => negb (is_err (snd (step s o))) || negb (label_conflict (g_tab g) l)
-                || forallb (fun n => amem ident_eq_dec (g_nodes g) (n_id n)) ns
-    | None => true
-    end
-  | None => true
-  end.
-
-Definition tables_eq_dec : forall a b : tables, {a = b} + {a <> b}.
-Proof.
-  decide equality; apply list_eq_dec; decide equality;
-    try apply Nat.eq_dec; try apply elabel_eq_dec; try apply dom_eq_dec; try apply factor_eq_dec.
-Defined.
-
-(** add_rule/new_rule register labels one by one and may raise half-way: the guard is that a
-    failing call has not changed the tables *)
-Definition rule_reg_ok (s : state) (o : op) : bool :=
-  let chk h l gh :=
-      match get_hrg (objs s) h, get_graph (objs s) gh with
-      | Some x, Some g =>
-        negb (rule_ok l g) ||
-        (let (x', r) := h_add_rule x (Rule l gh) g in
-         negb (is_err r) || (if tables_eq_dec (h_tab x') (h_tab x) then true else false))
-      | _, _ => true
-      end in
-  match o with
-  | AddRule h l gh => chk h l gh
-  | NewRule h name gh => match get_graph (objs s) gh with
-                         | Some g => chk h (EL name (g_type g) false) gh
-                         | None => true
-                         end
-  | _ => true
-  end.
-
-(** add_factor registers the label before its other checks; add_domain registers the node
-    label before it finds the name already mapped *)
-Definition interp_reg_ok (s : state) (o : op) : bool :=
-  match o with
-  | AddFactor h l f =>
-    match nth_error (objs s) h with
-    | Some x => negb (has_interp x) || negb (is_err (snd (step s o)))
-                || negb (el_term l) || label_conflict (tab_of x) l
-                || match aget Nat.eq_dec (t_el (tab_of x)) (el_name l) with Some _ => true | None => false end
-    | None => true
-    end
-  | AddDomain h l _ | NewFiniteDomain h l _ =>
-    match nth_error (objs s) h with
-    | Some x => negb (has_interp x) || negb (amem Nat.eq_dec (t_dom (tab_of x)) l)
-                || amem Nat.eq_dec (t_nl (tab_of x)) l
-    | None => true
-    end
-  | _ => true
-  end.
-
-Definition atomic_ok (s : state) (o : op) : bool := f12_ok s o && rule_reg_ok s o && interp_reg_ok s o.
+Definition guard_wf (s : state) (o : op) : bool := alias_ok s o.
 
 (** * The correspondence check *)
 Definition prod_eq_dec {A B} (ea : forall a b : A, {a = b} + {a <> b}) (eb : forall a b : B, {a = b} + {a <> b})
@@ -882,29 +803,23 @@ Definition copy_match (strict : bool) (all : list oobs) (o c : oobs) : bool :=
 
 (** verdict of one step: the list of codes that apply
      1  wf_b rejects the implementation's state although every call so far satisfied guard_wf
-     2/13/3/4  wf_b rejects it after a call outside f11_ok / remove_ok / copy_ok / alias_ok (known classes)
-     5  a raising call changed what the object shows although atomic_ok holds
-     6/7/8  same, call outside f12_ok / rule_reg_ok / interp_reg_ok
-     9  frame oracle rejects, or (while every call so far satisfied guard_wf) the copy oracle
-        rejects (12: the copy differs only in the label-table views, F13)
+     4  wf_b rejects it after a call outside alias_ok (the known class: mutation of a rule's rhs)
+     5  a raising call changed what the objects show
+     9  frame oracle rejects, or (while every call so far satisfied guard_wf) the copy does not
+        show what its original shows
      10 result differs from the model's, 11 observation differs from the model's *)
 Definition step_codes (s : state) (clean : bool) (prev : list oobs) (o : op) (r : result) (ob : list oobs)
   : list nat * bool :=
   let (s', mr) := step s o in
   let g := guard_wf s o in
   let wf := wf_b ob in
-  let c_wf := if wf then [] else
-              if clean && g then [1] else
-              if clean then [if negb (f11_ok s o) then 2 else if negb (remove_ok s o) then 13 else if negb (copy_ok s o) then 3 else 4] else [] in
-  let c_at := if is_err r && negb (if list_eq_dec oobs_eq_dec ob prev then true else false) then
-                [if atomic_ok s o then 5 else if negb (f12_ok s o) then 6 else if negb (rule_reg_ok s o) then 7 else 8]
-              else [] in
+  let c_wf := if wf then [] else if clean && g then [1] else if clean then [4] else [] in
+  let c_at := if is_err r && negb (if list_eq_dec oobs_eq_dec ob prev then true else false) then [5] else [] in
   let c_fr := if frame_ok 0 (target o) prev ob then [] else [9] in
   let c_cp := match o with
               | Copy h => if clean && is_ok r then
                             match nth_error ob h, nth_error ob (length prev) with
-                            | Some x, Some y => if copy_match true ob x y then []
-                                                else if copy_match false ob x y then [12] else [9]
+                            | Some x, Some y => if copy_match true ob x y then [] else [9]
                             | _, _ => [9]
                             end
                           else []
@@ -933,6 +848,6 @@ Fixpoint check_loop (s : state) (clean : bool) (prev : list oobs) (i : nat)
   end.
 
 (** verdict = code + 16 * (index of the step), 0 = everything agreed and was accepted;
-    a known class (2,3,4,6,7,8,12,13) is reported only if nothing severe follows *)
+    the known class 4 is reported only if nothing severe follows *)
 Definition api_check (x : list op * list (result * list oobs)) : nat :=
   check_loop init true [] 0 (fst x) (snd x) 0.
